@@ -224,8 +224,29 @@ macro_rules! view_result {
     }};
 }
 
-fn run_case(case: &Value) -> Vec<Value> {
-    let mut calc = SmartCalc::default();
+fn mutates(op: &str) -> bool {
+    !matches!(op, "exec" | "exec_fresh" | "new_session" | "set_text" | "set_language" | "exec_session" | "get_tz")
+}
+
+// A case that never mutates the calculator may run on the worker's long-lived default
+// calculator (evaluation does not change it: property C04 checks exactly that, with
+// `exec_fresh` as the reference); any other case gets its own.
+fn run_case(case: &Value, shared: &mut Option<SmartCalc>) -> Vec<Value> {
+    let empty0 = vec![];
+    let ops0 = case.get("ops").and_then(|x| x.as_array()).unwrap_or(&empty0);
+    let pure_case = !ops0.iter().any(|o| mutates(&s(o, "op"))) && !b(case, "own_calc");
+    let mut own: Option<SmartCalc> = None;
+    if pure_case {
+        if shared.is_none() {
+            *shared = Some(SmartCalc::default());
+        }
+    } else {
+        own = Some(SmartCalc::default());
+    }
+    let calc: &mut SmartCalc = match own.as_mut() {
+        Some(c) => c,
+        None => shared.as_mut().unwrap(),
+    };
     let mut sessions: BTreeMap<u64, Session> = BTreeMap::new();
     let mut obs = Vec::new();
     let empty = vec![];
@@ -370,6 +391,22 @@ fn cmd_run() {
         let mut out = stdout.lock();
         writeln!(out, "{}", json!({"today": date_days(&now.naive_utc().date()), "year": now.year(), "now": now.timestamp()})).unwrap();
     }
+    type Job = (Value, mpsc::Sender<Vec<Value>>);
+    fn spawn_worker() -> mpsc::Sender<Job> {
+        let (jtx, jrx) = mpsc::channel::<Job>();
+        std::thread::Builder::new()
+            .stack_size(64 * 1024 * 1024)
+            .spawn(move || {
+                let mut shared: Option<SmartCalc> = None;
+                while let Ok((case, rtx)) = jrx.recv() {
+                    let obs = run_case(&case, &mut shared);
+                    let _ = rtx.send(obs);
+                }
+            })
+            .unwrap();
+        jtx
+    }
+    let mut worker = spawn_worker();
     for line in stdin.lock().lines() {
         let line = match line {
             Ok(l) => l,
@@ -388,28 +425,25 @@ fn cmd_run() {
         let id = case.get("id").cloned().unwrap_or(Value::Null);
         let timeout_ms = case.get("timeout_ms").and_then(|x| x.as_u64()).unwrap_or(5000);
         let (tx, rx) = mpsc::channel();
-        let case2 = case.clone();
-        let handle = std::thread::Builder::new()
-            .stack_size(64 * 1024 * 1024)
-            .spawn(move || {
-                let obs = run_case(&case2);
-                let _ = tx.send(obs);
-            })
-            .unwrap();
+        if worker.send((case.clone(), tx)).is_err() {
+            worker = spawn_worker();
+            let (tx2, _rx2) = mpsc::channel();
+            let _ = worker.send((case.clone(), tx2));
+        }
         let res = rx.recv_timeout(StdDuration::from_millis(timeout_ms));
         let mut out = stdout.lock();
         match res {
             Ok(obs) => {
-                let _ = handle.join();
                 writeln!(out, "{}", json!({"id": id, "obs": obs})).unwrap();
             }
             Err(mpsc::RecvTimeoutError::Timeout) => {
-                // the worker cannot be killed; it is leaked and the process exits at the end
+                // the worker cannot be killed; it is abandoned and a new one takes over
                 writeln!(out, "{}", json!({"id": id, "hang": true})).unwrap();
+                worker = spawn_worker();
             }
             Err(mpsc::RecvTimeoutError::Disconnected) => {
-                let _ = handle.join();
                 writeln!(out, "{}", json!({"id": id, "crash": true})).unwrap();
+                worker = spawn_worker();
             }
         }
         out.flush().unwrap();
